@@ -418,6 +418,8 @@ def run(tier, seed):
     s2.rule = "10^4 draws of Authenticator.get_challenge: 32 lower-case hex digits each (2 x the translated token_hex argument), all distinct"
     run_challenges(s2, 10000)
     suites.append(s2)
+    from .. import extra
+    suites.append(extra.suite_recipe_relay_urls(tier, seed))
     return suites
 
 
